@@ -433,6 +433,14 @@ class Env:
         env = self
         if self.rig == "L":
             self.fos = FakeOS(w)
+            self.hint_log = []  # (step, actor, pointer content) of every applied pointer rename
+
+            def _hint_hook(fos_, src, dst):
+                if dst.endswith("metadata.version-hint.text"):
+                    ino = fos_._lookup(dst)
+                    self.hint_log.append((w.step, actor(), ino.data if ino is not None else None))
+
+            self.fos.after_rename.append(_hint_hook)
             self._bump_epoch_on(self.fos, ("write", "replace", "rename", "remove", "unlink", "close", "flock", "makedirs"))
             fos = self.fos
             tf = types.SimpleNamespace(mkstemp=fos.mkstemp, NamedTemporaryFile=fos.NamedTemporaryFile, gettempdir=fos.gettempdir)
@@ -594,6 +602,19 @@ class Env:
     def as_actor(self, name):
         """Run the enclosed code as process `name` (for crash harnesses without threads)."""
         return Env._As(name)
+
+    def pointer_history(self):
+        """[(step, actor, pointer bytes)] of every applied pointer write so far."""
+        if self.rig == "L":
+            return list(self.hint_log)
+        if self.rig == "S":
+            out = []
+            for k, hist in self.s3.history.items():
+                if k.endswith("metadata.version-hint.text"):
+                    actors = {st: a for (st, key, a, b, af) in self.s3.put_log if key == k}
+                    out += [(st, actors.get(st), body) for st, body in hist]
+            return sorted(out, key=lambda x: x[0])
+        return []
 
     def files(self):
         """{table-relative path: bytes} of the current storage state."""
